@@ -1,4 +1,1 @@
-import RpycModel.Gen.Brine
-import RpycModel.Base.Bytes
-import RpycModel.Base.Py
-import RpycModel.Brine.Model
+import RpycModel.Props.C04
